@@ -925,4 +925,46 @@ theorem componentSelectPoint_ptW_val (bit : Nat) (a b : Pt) (c : Composer) (hwf 
   rw [hs, hx.val_eq hbit, hx.ptW_val_eq ha, hx.ptW_val_eq hb]
 
 end Composer
+
+/-! ### the prime-order subgroup is closed under the operations of the components
+
+  All component theorems are stated for on-curve points.  `InSubgroup P` (on the curve and
+  `[r_J]P = O`) is only needed to call the results "the group law of the prime-order subgroup":
+  the subgroup is closed under everything the components compute, by the `AddCommGroup`
+  structure (`CurvePt.addCommGroup`). -/
+
+/-- `P` is a point of the prime-order subgroup: on the curve and killed by `r_J` -/
+def InSubgroup (P : PtF) : Prop := OnCurveP P ∧ smulF RJ P = idF
+
+theorem inSubgroup_id : InSubgroup idF := ⟨id_on_curveP, smulF_id RJ⟩
+
+theorem InSubgroup.add {P Q : PtF} (hP : InSubgroup P) (hQ : InSubgroup Q) :
+    InSubgroup (addF P Q) :=
+  ⟨add_on_curveP hP.1 hQ.1, by rw [smulF_addF RJ hP.1 hQ.1, hP.2, hQ.2, addF_id]⟩
+
+theorem InSubgroup.neg {P : PtF} (hP : InSubgroup P) : InSubgroup (negF P) :=
+  ⟨neg_on_curveP hP.1, by rw [smulF_negF, hP.2, negF_id]⟩
+
+theorem InSubgroup.sub {P Q : PtF} (hP : InSubgroup P) (hQ : InSubgroup Q) :
+    InSubgroup (addF P (negF Q)) := hP.add hQ.neg
+
+theorem InSubgroup.smul {P : PtF} (hP : InSubgroup P) (n : ℕ) : InSubgroup (smulF n P) :=
+  ⟨smulF_on_curve n hP.1, by
+    rw [← smulF_mul _ _ hP.1, Nat.mul_comm, smulF_mul _ _ hP.1, hP.2, smulF_id]⟩
+
+theorem InSubgroup.sel {P : PtF} (hP : InSubgroup P) {b : F} (hb : b = 0 ∨ b = 1) :
+    InSubgroup (Composer.selF b P) := by
+  rcases hb with rfl | rfl
+  · rw [Composer.selF_zero]; exact inSubgroup_id
+  · rw [Composer.selF_one]; exact hP
+
+/-- **subgroup_closed**: `[r_J]P = O ∧ [r_J]Q = O → [r_J](P+Q) = O`, and likewise for the
+    negation, the difference, every scalar multiple and the identity. -/
+theorem subgroup_closed {P Q : PtF} (hP : OnCurveP P) (hQ : OnCurveP Q)
+    (kP : smulF RJ P = idF) (kQ : smulF RJ Q = idF) (n : ℕ) :
+    smulF RJ (addF P Q) = idF ∧ smulF RJ (negF P) = idF ∧ smulF RJ (addF P (negF Q)) = idF ∧
+    smulF RJ (smulF n P) = idF ∧ smulF RJ idF = idF :=
+  ⟨(InSubgroup.add ⟨hP, kP⟩ ⟨hQ, kQ⟩).2, (InSubgroup.neg ⟨hP, kP⟩).2,
+   (InSubgroup.sub ⟨hP, kP⟩ ⟨hQ, kQ⟩).2, (InSubgroup.smul ⟨hP, kP⟩ n).2, inSubgroup_id.2⟩
+
 end Plonk
